@@ -7,6 +7,7 @@ import (
 	"crypto/x509"
 	"encoding/pem"
 	"errors"
+	"fmt"
 	"github.com/rs/zerolog/log"
 	"github.com/theparanoids/ysshra/agent/utils"
 	"io"
@@ -109,6 +110,19 @@ func (_ *server) AddSmartcardKey(readerId string, pin []byte, lifetime time.Dura
 // The request should be forwarded (see: ServeAgent), and be handled by the wrapped SSH agent server.
 func (_ *server) RemoveSmartcardKey(readerId string, pin []byte) error {
 	return errors.New("yubiagent: RemoveSmartcardKey in not implemented in server")
+}
+
+// serveForwarded lets the x/crypto agent server handle one standard request.
+// Its request parser panics on some malformed frames (e.g. an add-identity request
+// whose lifetime constraint is cut short); such a frame must end the connection
+// it came from with an error, not the process that serves all connections.
+func serveForwarded(agent sshagent.Agent, f forwarder) (err error) {
+	defer func() {
+		if r := recover(); r != nil {
+			err = fmt.Errorf("yubiagent: malformed request: %v", r)
+		}
+	}()
+	return sshagent.ServeAgent(agent, f)
 }
 
 // ServeAgent uses an agent (usually a server object) to serve the connection c.
@@ -220,7 +234,7 @@ func ServeAgent(agent YubiAgent, c io.ReadWriter) error {
 			AgentMessageRequestV1Identities, AgentMessageRequestIdentities:
 
 			forwarder := newForwarder(req, c)
-			err = sshagent.ServeAgent(agent, forwarder)
+			err = serveForwarded(agent, forwarder)
 			if err != nil && err != io.EOF {
 				return err
 			}
